@@ -1,8 +1,56 @@
 """C13 — usage rules (gate arity, operand kinds, const mutation, global-scope rules) are diagnosed exactly."""
+import itertools
 from . import semacheck as SC
 from . import oracle_sema_a as OA
 
+PRE = ('include "stdgates.inc";\nqubit q; qubit[2] qr; qubit[3] qs;\n'
+       'int i1 = 1; int[8] i8 = 2; uint[8] u8 = 3; float[32] f32 = 1.5; float[64] f64 = 2.5; bool bo = true;\n'
+       'bit b1; bit[3] b3; bit[4] b4; angle[8] an = 1.0; duration du = 3ns; complex[float[64]] cx1 = 1.0;\n'
+       'const int ci = 4; const int[8] ci8 = 5; const uint[8] cu8 = 6; const float[64] cf = 1.0; const bool cb = true;\n'
+       'const bit[4] cb4 = "1010"; const bit[3] cb3 = "101"; const bit cb1 = "1"; const angle[8] ca = 0.5; const duration cd = 2ns;\n'
+       'gate g0 a { } gate g1(t) a { } gate g2(t, u) a, b { }\n'
+       'def f0() { } def f1(int x) -> int { return x; } def f2(int x, qubit y) { }\n')
+LHS = ["i1", "i8", "u8", "f32", "f64", "bo", "b1", "b3", "b4", "an", "du", "cx1", "ci", "ci8", "cu8", "cf", "cb", "cb4", "cb3", "cb1",
+       "ca", "cd", "q", "qr", "g0", "f1", "nope", "pi", "b4[0]", "cb4[0]", "cb4[1:2]", "qr[0]", "i8[0]"]
+RHS = ["1", "-1", "2.5", "true", '"1010"', '"101"', "3ns", "2im", "i1", "i8", "u8", "f64", "bo", "b1", "b3", "b4", "cb4", "cb3", "ci",
+       "cf", "an", "du", "q", "qr", "measure q", "measure qr", "f1(1)", "i1 + i8", "cb4[0]", "nope", "pi", "(1)", "int[8](i1)"]
+OPS = ["=", "+=", "-=", "*=", "/=", "|=", "&=", "^=", "<<=", ">>=", "%="]
+GATES = ["g0", "g1", "g2", "h", "cx", "U", "rz", "i1", "f0", "nope", "q"]
+ARGS = [None, "", "1", "1, 2", "1, 2, 3", "i1", "q"]
+OPERANDS = ["q", "qr", "qr[0]", "q[0]", "qs[1]", "$0", "i1", "b3", "nope", "cb4", "f0", "g0", "qr[0:1]", "qr, q", "q, qr[1], qs", "q, q, q"]
+MODS = ["", "inv @ ", "pow(2) @ ", "ctrl @ ", "ctrl(2) @ ", "negctrl @ ", "inv @ ctrl @ "]
+
+
+def usage_programs(ctx):
+    """one usage of each kind per program, over the cross product of the rule's inputs"""
+    q = ctx.tier == "quick"
+    out = []
+    for l, r in itertools.product(LHS, RHS):
+        out.append(PRE + f"{l} = {r};\n")
+    for l, op in itertools.product(LHS[:26], OPS[1:]):
+        out.append(PRE + f"{l} {op} i1;\n")
+    for m, g, a, o in itertools.product(MODS if not q else MODS[:3], GATES, ARGS, OPERANDS):
+        if q and (len(out) % 3):
+            pass
+        call = g + ("" if a is None else f"({a})")
+        out.append(PRE + f"{m}{call} {o};\n")
+    for body in ("gate gg a { }", "def ff() { }", "qubit qq;", "qubit[2] qq;", "return;", "return 1;", "int k;", "const int k = 1;",
+                 'include "stdgates.inc";', "break;", "continue;", "end;"):
+        for ctx_ in ("{}", "if (true) {{ {} }}", "while (false) {{ {} }}", "for int k2 in [0:1] {{ {} }}", "def outer() {{ {} }}",
+                     "gate outer a {{ {} }}", "if (true) {{ if (true) {{ {} }} }}", "switch (i1) {{ case 1 {{ {} }} default {{ {} }} }}"):
+            out.append(PRE + ctx_.format(body, body) + "\n")
+    for d in ("du", "cd", "i1", "f64", "3ns", "3", "2.5", "q", "b3", "nope", "du + cd", "ci"):
+        for o in ("q", "qr", "qr[0]", "i1", "q, qr"):
+            out.append(PRE + f"delay[{d}] {o};\n")
+    for f, a in itertools.product(["f0", "f1", "f2", "g0", "i1", "nope"], ["", "1", "1, q", "1, 2, 3", "q", "i1, qr[0]"]):
+        out.append(PRE + f"{f}({a});\n")
+        out.append(PRE + f"i1 = {f}({a});\n")
+    for a, op, b in itertools.product(["q", "qr", "qr[0]", "i1", "$0"], ["+", "-", "*", "/", "**", "++", "==", "&", "<<", "%"], ["q", "2", "qr", "i1"]):
+        out.append(PRE + f"{a} {op} {b};\n")
+    return out
+
 
 def check(ctx):
-    return SC.run(ctx, "C13", ["Oq3.Props.C13"], [OA], SC.default_programs(ctx),
-                  "generated programs with wrong arities, wrong operand kinds, const targets, gates/defs/qubits in non-global scopes, returns at top level, delays with non-duration designators; oracle: the usage rules recomputed from the typed AST and the recorded symbol types, compared with errors= as multisets of kind@span (missing and spurious)")
+    progs = SC.default_programs(ctx, usage_programs(ctx))
+    return SC.run(ctx, "C13", ["Oq3.Props.C13"], [OA], progs,
+                  "generated programs with wrong arities, wrong operand kinds, const targets, gates/defs/qubits in non-global scopes, returns at top level, delays with non-duration designators, PLUS the cross products of the rules' inputs, one usage per program over a fixed preamble: assignment target kind (33: every scalar type, const/non-const, registers, indexed, qubits, gates, subroutines, undeclared, built-in constants) x value kind (33) x operator (11); gate modifier x callee kind x argument list x operand list; declarations/returns/includes in every scope kind; delay designator x operand; call callee x arguments; quantum operand x binary operator; oracle: the usage rules recomputed from the typed AST and the recorded symbol types, compared with errors= as multisets of kind@span (missing and spurious)")
